@@ -170,6 +170,13 @@ func (c *Client) StatBlobs(ctx context.Context, blobs []blob.Ref, fn func(blob.S
 	if len(needStat) == 0 {
 		return nil
 	}
+	// Resolve the server's prefix before the workers below take the
+	// slots of httpGate: the first call does a discovery request which
+	// is gated by httpGate too, and would wait for ever for a slot
+	// held by workers which are waiting for that very discovery.
+	if _, err := c.prefix(); err != nil {
+		return err
+	}
 	// Only the blobs not answered from the cache above still need a
 	// stat, and StatBlobsParallelHelper itself calls fn with what each
 	// worker returns: the worker must not call it too.
